@@ -17,7 +17,8 @@ for d in sorted(glob.glob(os.path.join(V, 'seeded', 'C*'))):
         os.path.basename(d), summ.replace('|', '/'), needs.replace('|', '/'),
         ('**caught** by `%s`%s' % (det.get('check', '?').replace('./check ', '').replace(' --tier quick', ''),
                                    ' (after the check was strengthened; missed at first)' if first_missed else '')) if det.get('detected')
-        else ('MISSED by %s' % det.get('check', '?') if det else 'not run'),
+        else ('outside the property as anchored (kept for the record, see meta.json `scope_note`)' if det.get('counted') is False
+              else ('MISSED by %s' % det.get('check', '?') if det else 'not run')),
         ', '.join(also)))
 rows = [r.replace('\n', ' ').replace('\r', ' ') for r in rows]
 table = '| seed | change | needs | own check (quick tier) | also caught by |\n|---|---|---|---|---|\n' + '\n'.join(rows)
